@@ -142,6 +142,7 @@ func TestC09(t *testing.T) {
 	cs := cells([]string{"simple", "nocache", "lru1-shared", "sesscache"}, []string{"enc", "dec"})
 	explore(t, r, "C09", cs, map[string]bool{"ms": true, "kms": true, "aead": true, "alloc": true}, ev.Pick(12, 100))
 	schedulesForC09(t, r)
+	sessionCacheLedger(t, r)
 	r.Finish(t)
 }
 
